@@ -30,7 +30,9 @@ Fixpoint eval_parts (inp : list (string * ival)) (lib : stmt) (ps : list part) (
         | Throw s => Some (false, snd s ++ acc)
         | Unsup | NoFuel => None
         end
-      else match segs with [] => eval_parts inp lib r acc | _ => None end
+      else if (String.eqb root "self" || String.eqb root "runtime") then
+        match segs with [] => eval_parts inp lib r acc | _ => None end
+      else None   (* not a context key: cwl_utils sends the text to JavaScript, where the name is unbound *)
   | PJs body :: r =>
       match run inp fuel lib body with
       | Ok _ s => eval_parts inp lib r (snd s ++ acc)
